@@ -39,13 +39,15 @@ case "${1:-}" in
     [ -d cmd/gencatalog ] && gen
     build .build/vcheck ./cmd/vcheck
     build .build/crashchild ./cmd/crashchild
-    mkdir -p .scratch/setup.$$ && buildsched .scratch/setup.$$ && rm -rf .scratch/setup.$$
+    mkdir -p .scratch/setup.$$ && buildsched .scratch/setup.$$ && cp .scratch/setup.$$/vsched .build/vsched-pair && rm -rf .scratch/setup.$$
     [ -x ./setup_extra.sh ] && ./setup_extra.sh
     echo "setup ok"; exit 0;;
   replay)
     [ -d cmd/gencatalog ] && gen
     build .build/vcheck.$$ ./cmd/vcheck
     build .build/crashchild ./cmd/crashchild
+    SC=.scratch/pair.$$; mkdir -p $SC; overlay $SC/ov
+    build .build/vsched-pair ./cmd/vsched -overlay "$SC/ov/overlay.json"; rm -rf $SC
     .build/vcheck.$$ replay "$2"; rc=$?; rm -f .build/vcheck.$$; exit $rc;;
   "") echo "usage: run.sh <ID> <quick|thorough> | setup | replay <path>" >&2; exit 2;;
 esac
@@ -58,6 +60,10 @@ if [ "$ID" = C08 ]; then
 fi
 build .build/vcheck.$$ ./cmd/vcheck
 [ "$ID" = C19 ] && build .build/crashchild ./cmd/crashchild
+if [ "$ID" = C02 ] || [ "$ID" = C03 ]; then   # the pairing-handler scheduler binary (overlay build), next to vcheck
+  SC=.scratch/pair.$$; mkdir -p $SC; overlay $SC/ov
+  build .build/vsched-pair ./cmd/vsched -overlay "$SC/ov/overlay.json"; rm -rf $SC
+fi
 .build/vcheck.$$ "$ID" "$TIER"; rc=$?
 rm -f .build/vcheck.$$
 exit $rc
